@@ -229,6 +229,31 @@ func (e *Env) entryClosed(name, srt string, l Leaf) {
 	e.sess.Cmd("(assert (forall " + decl + " (! " + fact + " :pattern (" + sel + "))))")
 }
 
+// entryRange states, once per entry-heap array of an integer-typed location, that every
+// location holds a value of its type. Loads at top level assume the range of the loaded term;
+// loads under a quantifier cannot (the term mentions bound variables), so a quantified fact
+// about `c.f[x.g]` would otherwise lose the range of x.g.
+func (e *Env) entryRange(name string, l Leaf) {
+	if l.Sort != sInt || isRefType(l.Typ) || strings.HasSuffix(l.Path, "#arr") || e.declared["range:"+name] || !e.declared[name+"@0"] {
+		return
+	}
+	arr := q(name + "@0")
+	var sel, decl string
+	if strings.HasPrefix(name, "F!") {
+		sel, decl = "(select "+arr+" |$r|)", "((|$r| Int))"
+	} else if strings.HasPrefix(name, "E!") {
+		sel, decl = "(select (select "+arr+" |$r|) |$j|)", "((|$r| Int) (|$j| Int))"
+	} else {
+		return
+	}
+	r := e.typeRange(sel, l.Typ)
+	if r == tTrue {
+		return
+	}
+	e.declared["range:"+name] = true
+	e.sess.Cmd("(assert (forall " + decl + " (! " + r + " :pattern (" + sel + "))))")
+}
+
 func (e *Env) declAtEntry() {
 	if !e.declared["atentry"] {
 		e.declared["atentry"] = true
@@ -280,6 +305,8 @@ func (e *Env) load(st *State, p *Ptr) Value {
 			}
 			if e.quantDepth == 0 {
 				e.entryClosed(name, srt, l)
+			} else {
+				e.entryRange(name, l)
 			}
 		}
 		if l.Sort == sInt {
